@@ -383,11 +383,13 @@ func C05(c *wk.Ctx) {
 				}
 			}
 			// linearity: the same pumped input at n and 4n bytes
-			size := 3 << 10
+			// (a quadratic term with a small constant only dominates beyond ~10 KB: the linear part costs
+			// ~60 steps per byte)
+			size, pairs := 12<<10, 1
 			if c.Tier == "thorough" {
-				size = 12 << 10
+				size, pairs = 16<<10, 2
 			}
-			for i := 0; i < 2; i++ {
+			for i := 0; i < pairs; i++ {
 				small, big, kind := corpus.PumpPair(r, size)
 				entry := "file"
 				if r.Intn(4) == 0 {
